@@ -73,8 +73,10 @@ Upload(s, d) ==
 
 AllIn(c, f, a) == Cardinality(c) + Cardinality(f) = Cardinality(a)
 
-Uploaded(s, d) ==
-  /\ up[s][d] = "started" /\ UNCHANGED refused
+\* (again: Tor reports the outcome of an upload a second time - a v3 service publishes two descriptors, and one directory
+\* may be responsible for both: the same handling, and what was counted once is not counted twice)
+UploadedEv(s, d, again) ==
+  /\ up[s][d] = (IF again THEN "ok" ELSE "started") /\ UNCHANGED refused
   /\ up' = [up EXCEPT ![s][d] = "ok"]
   /\ LET mine  == s = "me"
          \* known finding: the event is matched by directory only, so another service's upload counts
@@ -87,8 +89,11 @@ Uploaded(s, d) ==
         ELSE UNCHANGED <<confirmed, devUsed>> /\ Keep
   /\ UNCHANGED <<mode, replied, early, hostEarly, attempted, failed>>
 
-Failed(s, d) ==
-  /\ up[s][d] = "started" /\ UNCHANGED refused
+Uploaded(s, d) == UploadedEv(s, d, FALSE)
+UploadedAgain(s, d) == UploadedEv(s, d, TRUE)
+
+FailedEv(s, d, again) ==
+  /\ up[s][d] = (IF again THEN "failed" ELSE "started") /\ UNCHANGED refused
   /\ up' = [up EXCEPT ![s][d] = "failed"]
   /\ IF subscribed /\ s = "me" /\ AddrKnown /\ d \in attempted     \* (only a directory whose upload the client saw start counts)
      THEN /\ failed' = failed \cup {d}
@@ -97,6 +102,9 @@ Failed(s, d) ==
              ELSE Keep
      ELSE UNCHANGED failed /\ Keep
   /\ UNCHANGED <<mode, replied, early, hostEarly, attempted, confirmed, devUsed>>
+
+Failed(s, d) == FailedEv(s, d, FALSE)
+FailedAgain(s, d) == FailedEv(s, d, TRUE)
 
 \* Tor reports a failed *fetch* of a service's descriptor (somebody using this Tor looked the address up before it
 \* was published) with the same event word: FAILED s d for a directory no upload was announced to.  It is not an
@@ -117,6 +125,7 @@ Next ==
   \/ Reply \/ Refuse
   \/ \E s \in Svcs, d \in Dirs : Upload(s, d) \/ Uploaded(s, d) \/ Failed(s, d) \/ FetchFailed(s, d)
   \/ \E s \in Svcs, d \in Dirs, k \in Notices : Notice(s, d, k)
+  \/ \E s \in Svcs, d \in Dirs : UploadedAgain(s, d) \/ FailedAgain(s, d)
 
 Spec == Init /\ [][Next]_vars
 
